@@ -314,6 +314,10 @@ func runEvmTx(r *hx.R, n int, w *hx.W, _ []string) error {
 						if sp.tip.Cmp(sp.price) > 0 && !r.Chance(1, 6) {
 							sp.tip = new(big.Int).Set(sp.price)
 						}
+						if r.Chance(1, 2) { // a fee cap far above base fee + tip: charged (and refunded) at the effective price, not at the cap
+							sp.price = new(big.Int).Mul(e12, big.NewInt(r.Range(3, 40)))
+							sp.tip = big.NewInt(r.Range(0, 1_000_000_000_000))
+						}
 					}
 					toAcc := accs[r.Pick(4)].EthAddr
 					switch r.Pick(10) { // what it does
